@@ -102,6 +102,25 @@ L_SERVE, L_SHUTDOWN, L_CLOSE, L_CONNECT, L_DISCONNECT, L_OBSERVE, L_REL_FACTORY,
 CALLS = (L_SERVE, L_SHUTDOWN, L_CLOSE)
 
 
+def _port_bound(kind, addr):
+    """Is a listener socket of the server still bound to addr?  Probed from outside by trying to bind there:
+    TCP: a probe with SO_REUSEADDR fails with EADDRINUSE iff a LISTENING socket exists (TIME_WAIT remnants of accepted
+    connections do not matter); UDP: a plain probe fails iff the server's socket is still open."""
+    if addr is None:
+        return 0
+    udp = kind in (1, 3)
+    s = socket.socket(socket.AF_INET, socket.SOCK_DGRAM if udp else socket.SOCK_STREAM)
+    try:
+        if not udp:
+            s.setsockopt(socket.SOL_SOCKET, socket.SO_REUSEADDR, 1)
+        s.bind(addr)
+        return 0
+    except OSError:
+        return 1
+    finally:
+        s.close()
+
+
 def _status(fut_exc, done):
     """canonical status of a call: 0 pending, 1 returned, 2 ServerAlreadyRunning, 3 ServerClosedError,
     4 BusyResourceError, 5 crashed with the task-group-is-shutting-down group, 6 cancelled, 9 anything else"""
@@ -218,6 +237,7 @@ class _AsyncWorld:
         setattr(srv, attr, gated_factory)
 
         calls, clients, obs = [], [], []
+        addr = None
         try:
             for lab in labels:
                 if lab == L_SERVE:
@@ -265,7 +285,11 @@ class _AsyncWorld:
                         st.append(6)
                     else:
                         st.append(_status(c.exception(), True))
-                obs.append([st, int(srv.is_serving()), int(srv.is_listening())])
+                if srv.is_listening():
+                    a = srv.get_addresses()
+                    if a:
+                        addr = (a[0].host, a[0].port)
+                obs.append([st, int(srv.is_serving()), int(srv.is_listening()), _port_bound(kind, addr)])
         finally:
             gate_f.set(), gate_i.set(), gate_c.set(), never.set()
             for _r, w in clients:
@@ -442,6 +466,7 @@ def _run_standalone(inp):
     before = set(threading.enumerate())
     calls, clients, obs = [], [], []
     stuck = False
+    addr = None
     try:
         for n, lab in enumerate(labels):
             if lab == L_SERVE:
@@ -476,9 +501,13 @@ def _run_standalone(inp):
             else:
                 serving = _with_watchdog(lambda: int(srv.is_serving()), 2)
                 listening = _with_watchdog(lambda: int(len(srv.get_addresses()) > 0), 2)
-            # the two queries above run in the loop thread: let it come to rest again
+                if listening == 1:
+                    a = _with_watchdog(srv.get_addresses, ())
+                    if a:
+                        addr = (a[0].host, a[0].port)
+            # the queries above run in the loop thread: let it come to rest again
             _quiesce(_loop_threads(before))
-            obs.append([[c.status() if not stuck else 8 for c in calls], serving, listening])
+            obs.append([[c.status() if not stuck else 8 for c in calls], serving, listening, _port_bound(kind, addr)])
     finally:
         never.set()
         window_gate.set()
@@ -598,7 +627,7 @@ def oracle(inp):
     closed_ok_at = None          # index of the first observation after a server_close returned normally
     prev = []
     ci = 0
-    for step, (lab, (st, serving, listening)) in enumerate(zip(labels, obs)):
+    for step, (lab, (st, serving, listening, bound)) in enumerate(zip(labels, obs)):
         if lab in CALLS:
             ci += 1
         kinds = call_kinds[:len(st)]
@@ -631,7 +660,7 @@ def oracle(inp):
                             f"[kind={kind} labels={labels[:step + 1]}]")
         if closed_ok_at is None and any(k == L_CLOSE and s == 1 for k, s in zip(kinds, st)):
             closed_ok_at = step
-        if closed_ok_at is not None and listening:
+        if closed_ok_at is not None and (listening or bound):
             return f"listeners still open after server_close returned [kind={kind} labels={labels[:step + 1]}]"
         prev = st
     # no deadlock: with every gate released and a final shutdown, every call must have ended
